@@ -327,6 +327,38 @@ def rank1(h, n, rng, spec, full):
     ctx.count("rank1_complete_n%d" % n)
 
 
+def numpy_integer_indices(h, rng):
+    """Integers of NumPy's own integer types (any width) are integers: the same element as the Python integer of that value,
+    on an array and on a window that starts beyond the range of the small types (so window start + index leaves uint8 / int8)."""
+    np, ctx = h.np, h.ctx
+    n = rng.choice([300, 400, 1000])
+    da, a = h.array((n,), "float64")
+    start, ext = rng.choice([(250, 40), (120, 100), (n - 30, 30), (0, n)])
+    v, win = make_view(h, da, a, [start], [ext], (1, "npint"), {"shape": [n], "dtype": "float64"})
+    w = a[win] if v is not None else None
+    types = [np.uint8, np.int8, np.int16, np.uint16, np.int32, np.int64, np.uint64, np.intp]
+    for ty in types:
+        ii = np.iinfo(ty)
+        for obj, model, label, length in ((da, a, "array", n), (v, w, "view", ext)):
+            if obj is None:
+                continue
+            vals = {0, 1, length - 1, length, -1, -length, -length - 1, 10, 127, 128, 200, 255, rng.randrange(length)}
+            for val in sorted(x for x in vals if ii.min <= x <= ii.max):
+                rep = {"shape": [n], "dtype": "float64", "index_type": ty.__name__, "window": {"start": [start], "extent": [ext]} if label == "view" else None}
+                h.read(obj, model, ty(val), label + ":numpy_" + ty.__name__, (1, label, "npint", ty.__name__), rep)
+                ctx.count("numpy_integer_indices")
+    # two dimensions: one NumPy integer, one slice
+    da2, a2 = h.array((20, 300), "int32")
+    v2, win2 = make_view(h, da2, a2, [3, 250], [10, 40], (2, "npint"), {"shape": [20, 300], "dtype": "int32"})
+    if v2 is not None:
+        w2 = a2[win2]
+        for ty in (np.uint8, np.int8, np.int64):
+            for expr in ((ty(2), slice(None)), (slice(1, 4), ty(10)), (ty(-1 if np.iinfo(ty).min < 0 else 9), ty(5)), (Ellipsis, ty(39))):
+                h.read(v2, w2, expr, "view:numpy_" + ty.__name__, (2, "view", "npint", ty.__name__),
+                       {"shape": [20, 300], "dtype": "int32", "window": {"start": [3, 250], "extent": [10, 40]}})
+                ctx.count("numpy_integer_indices")
+
+
 def rand_expr(rng, dims, rank):
     k = rng.randint(1, rank)
     tup = []
@@ -416,6 +448,7 @@ def run_shard(spec, ctx):
                 jobs.append(("nd", shp))
         # every shard takes a slice of the job list; rank-1 jobs are exhaustive and run exactly once overall,
         # nd jobs are re-sampled by every shard with its own rng
+        ctx.guarded("numpy_integer_indices", numpy_integer_indices, h, rng)
         for ji, (kind, arg) in enumerate(jobs):
             if kind == "r1":
                 if ji % NSHARDS == spec["i"] % NSHARDS:
